@@ -4,10 +4,11 @@
 WT="$1"; M="$2"
 cd "$WT" || exit 2
 git checkout -q -- src tests 2>/dev/null
+git checkout -q --detach $(git -C /repo rev-parse HEAD)
 git apply --check "$M/patch.diff" || { echo "RESULT patch-does-not-apply"; exit 1; }
 PYTHONPATH=$WT/src timeout 120 /venv/bin/python "$M/demo.py" >/dev/null 2>&1; base=$?
 git apply "$M/patch.diff"
 PYTHONPATH=$WT/src timeout 120 /venv/bin/python "$M/demo.py" >/dev/null 2>&1; mut=$?
-PYTHONPATH=$WT/src timeout 1200 /venv/bin/python -m pytest -q -p no:cacheprovider --timeout=900 -x -q 2>&1 | tail -1 > /tmp/confirm.$$.log; suite=$(cat /tmp/confirm.$$.log); rm -f /tmp/confirm.$$.log
+PYTHONPATH=$WT/src timeout 1200 /venv/bin/python -m pytest -q -p no:cacheprovider --timeout=900 -x 2>&1 | tail -1 > /tmp/confirm.$$.log; suite=$(cat /tmp/confirm.$$.log); rm -f /tmp/confirm.$$.log
 git checkout -q -- src tests
 echo "RESULT demo_unchanged_exit=$base demo_mutant_exit=$mut suite_with_mutant='$suite'"
